@@ -403,7 +403,10 @@ def report_violation(ctx, kind, data, signature=None, found_input=True):
         if k:
             if signature not in ctx.known_reported:
                 ctx.known_reported.append(signature)
-                print(f"KNOWN-FINDING: property={ctx.pid} {k['what']}", flush=True)
+                printed = ctx.__dict__.setdefault("known_printed", set())
+                if k['what'] not in printed:      # one line per listed finding, however many signatures of its class were met
+                    printed.add(k['what'])
+                    print(f"KNOWN-FINDING: property={ctx.pid} {k['what']}", flush=True)
             return
     p = write_replay(ctx, kind, dict(data, signature=signature))
     suffix = "" if found_input else " no-failing-input-found"
